@@ -95,10 +95,25 @@ Definition repr (cd : codec) (t : text) (b : bytes) : Prop :=
   /\ (forall c, c <? 128 = true -> memb c t = memb c b /\ count c t = count c b)
   /\ (t = [] -> b = []).
 
-Lemma decode_repr (cd : codec) (b : bytes) (t : text) :
-  wf_bytes b = true -> decode cd b = Ok t -> repr cd t b.
+Definition modelled (cd : codec) : Prop := cd = CUtf8 \/ cd = CLatin1.
+
+Lemma ltce_ok {A} (r : res A) (x : A) : lookup_to_commit_encoding r = Ok x -> r = Ok x.
 Proof.
-  intros Hwf Hd. destruct cd; cbn [decode] in Hd; try discriminate.
+  destruct r as [a|e|]; cbn [lookup_to_commit_encoding]; intros H; try discriminate; [exact H|].
+  destruct (String.eqb e "LookupError"); discriminate.
+Qed.
+
+Lemma ltce_Ok {A} (x : A) : lookup_to_commit_encoding (Ok x) = Ok x.
+Proof. reflexivity. Qed.
+
+Lemma ltce_ude {A} :
+  lookup_to_commit_encoding (@Err A "UnicodeDecodeError") = Err "UnicodeDecodeError".
+Proof. reflexivity. Qed.
+
+Lemma decode_repr (cd : codec) (b : bytes) (t : text) :
+  modelled cd -> wf_bytes b = true -> decode cd b = Ok t -> repr cd t b.
+Proof.
+  intros Hm Hwf Hd. destruct Hm as [-> | ->]; cbn [decode] in Hd.
   - destruct (valid_utf8 b) eqn:Hv; [|discriminate].
     injection Hd as <-. unfold repr. cbn [encode]. rewrite Hv.
     repeat split; auto.
@@ -110,6 +125,7 @@ Proof.
 Qed.
 
 Lemma decode_using_spec (cd : codec) (c : commit) tc ta tm :
+  modelled cd ->
   decode_using cd c = Ok (tc, ta, tm) ->
   wf_bytes (c_committer c) = true -> wf_bytes (c_author c) = true ->
   match c_message c with Some m => wf_bytes m = true | None => True end ->
@@ -124,8 +140,10 @@ Lemma decode_using_spec (cd : codec) (c : commit) tc ta tm :
      | _, _ => False
      end.
 Proof.
-  intros H Hwc Hwa Hwm. unfold decode_using in H.
-  destruct (decode cd (c_committer c)) as [tc'| |] eqn:Hc; cbn [bind] in H; try discriminate.
+  intros Hmd H Hwc Hwa Hwm. unfold decode_using in H.
+  destruct (lookup_to_commit_encoding (decode cd (c_committer c))) as [tc'| |] eqn:Hc;
+    cbn [bind] in H; try discriminate.
+  apply ltce_ok in Hc.
   destruct (bytes_eqb (c_committer c) (c_author c)) eqn:Heq.
   - cbn [bind] in H.
     destruct (c_message c) as [m|] eqn:Hm.
@@ -137,7 +155,9 @@ Proof.
     + cbn [bind] in H. injection H as <- <- <-.
       split; [apply decode_repr; assumption|].
       split; [symmetry; apply beqb_true; exact Heq|exact I].
-  - destruct (decode cd (c_author c)) as [ta'| |] eqn:Ha; cbn [bind] in H; try discriminate.
+  - destruct (lookup_to_commit_encoding (decode cd (c_author c))) as [ta'| |] eqn:Ha;
+      cbn [bind] in H; try discriminate.
+    apply ltce_ok in Ha.
     destruct (c_message c) as [m|] eqn:Hm.
     + destruct (decode cd m) as [tm'| |] eqn:Hdm; cbn [bind] in H; try discriminate.
       injection H as <- <- <-.
@@ -153,18 +173,20 @@ Lemma decode_using_utf8_cases (c : commit) :
   (exists d, decode_using CUtf8 c = Ok d) \/ decode_using CUtf8 c = Err "UnicodeDecodeError".
 Proof.
   unfold decode_using. cbn [decode].
-  destruct (valid_utf8 (c_committer c)); cbn [bind]; [|right; reflexivity].
+  destruct (valid_utf8 (c_committer c)); rewrite ?ltce_Ok, ?ltce_ude; cbn [bind];
+    [|right; reflexivity].
   destruct (bytes_eqb (c_committer c) (c_author c)); cbn [bind].
   - destruct (c_message c) as [m|]; cbn [bind]; [|left; eexists; reflexivity].
     destruct (valid_utf8 m); cbn [bind]; [left; eexists; reflexivity|right; reflexivity].
-  - destruct (valid_utf8 (c_author c)); cbn [bind]; [|right; reflexivity].
+  - destruct (valid_utf8 (c_author c)); rewrite ?ltce_Ok, ?ltce_ude; cbn [bind];
+      [|right; reflexivity].
     destruct (c_message c) as [m|]; cbn [bind]; [|left; eexists; reflexivity].
     destruct (valid_utf8 m); cbn [bind]; [left; eexists; reflexivity|right; reflexivity].
 Qed.
 
 Lemma decode_using_latin1_ok (c : commit) : exists d, decode_using CLatin1 c = Ok d.
 Proof.
-  unfold decode_using. cbn [decode bind].
+  unfold decode_using. cbn [decode bind lookup_to_commit_encoding].
   destruct (bytes_eqb (c_committer c) (c_author c)); cbn [bind];
     destruct (c_message c); cbn [bind]; eexists; reflexivity.
 Qed.
@@ -174,7 +196,7 @@ Lemma decode_using_utf8_valid (c : commit) :
 Proof.
   unfold texts_valid. intros H.
   apply andb_prop in H. destruct H as [H Hm]. apply andb_prop in H. destruct H as [Hc Ha].
-  unfold decode_using. cbn [decode]. rewrite Hc, Ha. cbn [bind].
+  unfold decode_using. cbn [decode]. rewrite Hc, Ha. cbn [bind lookup_to_commit_encoding].
   destruct (bytes_eqb (c_committer c) (c_author c)); cbn [bind];
     destruct (c_message c) as [m|]; cbn [bind]; try rewrite Hm; cbn [bind]; eexists; reflexivity.
 Qed.
@@ -205,30 +227,32 @@ Proof.
   intros Henc Hwc Hwa Hwm. unfold encoding_ok in Henc. unfold import_texts.
   assert (Himplicit :
     exists im d, decode_implicit c = Ok (d, im)
-      /\ decode_using (export_codec env None im) c = Ok d).
+      /\ decode_using (export_codec env None im) c = Ok d
+      /\ modelled (export_codec env None im)).
   { unfold decode_implicit.
     destruct (decode_using_utf8_cases c) as [[d Hd]|He].
-    - rewrite Hd. cbn [is_ude bind]. exists None, d. split; reflexivity || exact Hd.
+    - rewrite Hd. cbn [is_ude bind]. exists None, d.
+      split; [reflexivity|]. split; [exact Hd|left; reflexivity].
     - rewrite He. cbn [is_ude]. cbn [String.eqb Ascii.eqb Bool.eqb].
       destruct (decode_using_latin1_ok c) as [d Hd]. rewrite Hd. cbn [bind].
       exists (Some (bs "latin1")), d. split; [reflexivity|].
-      cbn [export_codec]. rewrite lookup_latin1. exact Hd. }
+      cbn [export_codec]. rewrite lookup_latin1. split; [exact Hd|right; reflexivity]. }
   destruct (c_encoding c) as [e|] eqn:Hce.
   - apply andb_prop in Henc. destruct Henc as [Henc Hcd].
     apply andb_prop in Henc. destruct Henc as [Hasc Hnf].
     rewrite Hasc. cbn [bind].
     apply negb_true_iff in Hnf. rewrite Hnf.
-    assert (Hd : exists d, decode_using (lookup env e) c = Ok d).
+    assert (Hd : (exists d, decode_using (lookup env e) c = Ok d) /\ modelled (lookup env e)).
     { destruct (lookup env e); try discriminate.
-      - apply decode_using_utf8_valid. exact Hcd.
-      - apply decode_using_latin1_ok. }
-    destruct Hd as [[[tc ta] tm] Hd].
-    rewrite Hd. cbn [lookup_to_commit_encoding bind fst snd].
+      - split; [apply decode_using_utf8_valid; exact Hcd|left; reflexivity].
+      - split; [apply decode_using_latin1_ok|right; reflexivity]. }
+    destruct Hd as [[[[tc ta] tm] Hd] Hmd].
+    rewrite Hd. cbn [bind fst snd].
     exists None, tc, ta, tm. split; [reflexivity|]. split; [reflexivity|].
     cbn [export_codec].
     apply decode_using_spec; assumption.
   - cbn [bind].
-    destruct Himplicit as (im & [[tc ta] tm] & Hdi & Hdu).
+    destruct Himplicit as (im & [[tc ta] tm] & Hdi & Hdu & Hmd).
     rewrite Hdi. cbn [bind fst snd].
     exists im, tc, ta, tm. split; [reflexivity|]. split; [exact I|].
     apply decode_using_spec; assumption.
@@ -626,11 +650,13 @@ Qed.
 
 Theorem unknown_encoding_rejected env (c : commit) (e : bytes) :
   c_encoding c = Some e -> bytes_eqb e (bs "false") = false ->
-  lookup env e = CUnknown -> accepted env c = false.
+  lookup env e = CUnknown -> c_committer c <> [] -> accepted env c = false.
 Proof.
-  intros He Hf Hl. unfold accepted, import_commit, import_texts. rewrite He, Hf, Hl.
+  intros He Hf Hl Hne. unfold accepted, import_commit, import_texts. rewrite He, Hf, Hl.
   destruct (is_ascii e); cbn [bind]; [|reflexivity].
-  unfold decode_using. cbn [decode bind lookup_to_commit_encoding String.eqb Ascii.eqb Bool.eqb].
+  unfold decode_using. cbn [decode].
+  destruct (c_committer c) as [|x l]; [congruence|].
+  cbn [bind lookup_to_commit_encoding String.eqb Ascii.eqb Bool.eqb].
   reflexivity.
 Qed.
 
@@ -658,4 +684,182 @@ Proof.
   { destruct (decode_using_utf8_cases c) as [[d Hd]|Hd]; [|exact Hd].
     apply decode_using_utf8_ok_valid in Hd. rewrite Hd in Hv. discriminate. }
   rewrite Hd. reflexivity.
+Qed.
+
+(* ------------------------------------------------------------------ identifiers in canonical form *)
+Lemma memb_app (c : N) (a b : bytes) : memb c (a ++ b) = memb c a || memb c b.
+Proof. unfold memb. apply existsb_app. Qed.
+
+Lemma break_at_none (c : N) (s : bytes) : memb c s = false -> break_at c s = None.
+Proof.
+  unfold memb. induction s as [|b s IH]; intros H; [reflexivity|].
+  cbn [existsb] in H. apply orb_false_iff in H. destruct H as [Hb Hs].
+  cbn [break_at]. rewrite N.eqb_sym, Hb, (IH Hs). reflexivity.
+Qed.
+
+Lemma rindex_bound (c : N) (s : bytes) (i : nat) :
+  rindex c s = Some i -> (i < List.length s)%nat.
+Proof.
+  revert i. induction s as [|b s IH]; intros i H; [discriminate|].
+  cbn [rindex] in H. cbn [List.length].
+  destruct (rindex c s) as [j|].
+  - injection H as <-. specialize (IH j eq_refl). lia.
+  - destruct (b =? c); [|discriminate]. injection H as <-. lia.
+Qed.
+
+Lemma rindex_last (c : N) (x : bytes) : rindex c (x ++ [c]) = Some (List.length x).
+Proof.
+  induction x as [|b x IH].
+  - cbn [app rindex]. rewrite N.eqb_refl. reflexivity.
+  - cbn [app rindex List.length]. rewrite IH. reflexivity.
+Qed.
+
+Lemma rindex_memb (c : N) (s : bytes) : memb c s = true -> exists i, rindex c s = Some i.
+Proof.
+  unfold memb. induction s as [|b s IH]; intros H; [discriminate|].
+  cbn [existsb] in H. cbn [rindex].
+  destruct (rindex c s) as [j|]; [eexists; reflexivity|].
+  apply orb_prop in H. destruct H as [H|H].
+  - rewrite N.eqb_sym, H. eexists; reflexivity.
+  - destruct (IH H) as [i Hi]. discriminate.
+Qed.
+
+Lemma strip_last_space_app (u : bytes) : strip_last_space (u ++ [SP]) = u.
+Proof.
+  unfold strip_last_space. rewrite rev_app_distr. cbn [rev app].
+  rewrite N.eqb_refl. apply rev_involutive.
+Qed.
+
+Lemma count_app (c : N) (a b : bytes) : count c (a ++ b) = (count c a + count c b)%nat.
+Proof. unfold count. rewrite filter_app, app_length. reflexivity. Qed.
+
+Lemma count_absent (c : N) (s : bytes) : memb c s = false -> count c s = O.
+Proof.
+  unfold memb, count. induction s as [|b s IH]; intros H; [reflexivity|].
+  cbn [existsb] in H. apply orb_false_iff in H. destruct H as [Hb Hs].
+  cbn [filter]. rewrite Hb. exact (IH Hs).
+Qed.
+
+(* every identifier of the form  name ++ " <" ++ email ++ ">"  with no '<' in the name
+   and neither '<' nor '>' in the email is left alone by fix_person_identifier *)
+Theorem fix_person_canonical (u e : bytes) :
+  memb LT u = false -> memb LT e = false -> memb GT e = false ->
+  fix_person (u ++ bs " <" ++ e ++ [GT]) = Ok (u ++ bs " <" ++ e ++ [GT]).
+Proof.
+  intros Hu Hel Heg.
+  change (bs " <") with [SP; LT].
+  set (t := u ++ [SP; LT] ++ e ++ [GT]).
+  assert (Hlt : memb LT t = true).
+  { subst t. rewrite !memb_app. cbn. rewrite orb_true_r. reflexivity. }
+  assert (Hgt : memb GT t = true).
+  { subst t. rewrite !memb_app. cbn. rewrite !orb_true_r. reflexivity. }
+  unfold fix_person. rewrite Hlt, Hgt. cbn [negb andb].
+  assert (Hg : rindex GT t = Some (List.length (u ++ [SP; LT] ++ e))).
+  { subst t. replace (u ++ [SP; LT] ++ e ++ [GT]) with ((u ++ [SP; LT] ++ e) ++ [GT])
+      by (rewrite <- !app_assoc; reflexivity).
+    apply rindex_last. }
+  destruct (rindex_memb LT t Hlt) as [l Hl].
+  rewrite Hg, Hl.
+  assert (Hb : (l < List.length t)%nat) by (apply rindex_bound with (c := LT); exact Hl).
+  assert (Hlen : List.length t = S (List.length (u ++ [SP; LT] ++ e))).
+  { subst t. rewrite !app_length. cbn [List.length]. lia. }
+  replace (Nat.ltb (List.length (u ++ [SP; LT] ++ e)) l) with false
+    by (symmetry; apply Nat.ltb_ge; lia).
+  assert (Hbr : break_at LT t = Some (u ++ [SP], e ++ [GT])).
+  { subst t. replace (u ++ [SP; LT] ++ e ++ [GT]) with ((u ++ [SP]) ++ LT :: (e ++ [GT]))
+      by (rewrite <- !app_assoc; reflexivity).
+    apply break_at_app. rewrite memb_app, Hu. reflexivity. }
+  rewrite Hbr.
+  rewrite (break_at_none LT (e ++ [GT])) by (rewrite memb_app, Hel; reflexivity).
+  replace (e ++ [GT]) with (e ++ GT :: []) by reflexivity.
+  rewrite (break_at_app GT e [] Heg).
+  rewrite strip_last_space_app. subst t. reflexivity.
+Qed.
+
+Theorem ident_ok_canonical (u e : bytes) :
+  memb LT u = false -> memb GT u = false -> memb LT e = false -> memb GT e = false ->
+  ident_ok (u ++ bs " <" ++ e ++ [GT]) = true.
+Proof.
+  intros Hul Hug Hel Heg. unfold ident_ok.
+  rewrite (fix_person_canonical u e Hul Hel Heg). rewrite beqb_refl. cbn [andb].
+  change (bs " <") with [SP; LT].
+  rewrite !count_app, (count_absent GT u Hug), (count_absent GT e Heg).
+  cbn. rewrite andb_false_r. reflexivity.
+Qed.
+
+(* ------------------------------------------------------------------ revision ids *)
+Theorem revid_injective (a b : bytes) :
+  revid_foreign_to_bzr a = revid_foreign_to_bzr b -> a = b.
+Proof.
+  intros H. pose proof (parent_lookup_revid a) as Ha. rewrite H, parent_lookup_revid in Ha.
+  injection Ha as ->. reflexivity.
+Qed.
+
+Section RevId.
+  (* the hash of the serialisation; SHA-1 in reality, any function here *)
+  Variable sha : bytes -> bytes.
+
+  (* rev.revision_id = mapping.revision_id_foreign_to_bzr(commit.id) *)
+  Definition revid_of (c : commit) : option bytes :=
+    option_map (fun s => revid_foreign_to_bzr (sha s)) (serialise c).
+
+  Theorem revid_stable (c1 c2 : commit) :
+    serialise c1 = serialise c2 -> revid_of c1 = revid_of c2.
+  Proof. unfold revid_of. intros ->. reflexivity. Qed.
+
+  Theorem revid_roundtrip env (c : commit) :
+    rt_guard env c = true ->
+    exists r c' id, import_commit env c = Ok r /\ export_commit env r (c_tree c) = Ok c'
+                    /\ revid_of c = Some id /\ revid_of c' = Some id
+                    /\ parent_lookup id = Ok (sha match serialise c with Some s => s | None => [] end).
+  Proof.
+    intros G. destruct (export_import_bytes env c G) as (r & c' & s & Hi & He & Hs & Hs').
+    exists r, c', (revid_foreign_to_bzr (sha s)).
+    unfold revid_of. rewrite Hs, Hs'. cbn [option_map].
+    repeat split; try assumption. apply parent_lookup_revid.
+  Qed.
+End RevId.
+
+(* ------------------------------------------------------------------ the guard is satisfiable *)
+Definition ex_env : bytes -> codec := env1 (bs "iso-8859-1") CLatin1.
+Definition ex_commit : commit :=
+  {| c_tree := repeat 97 40; c_parents := [repeat 98 40; ZERO_SHA];
+     c_author := bs "J" ++ [246] ++ bs "rg <j@x>"; c_author_time := 1234567891;
+     c_author_tz := 20700; c_author_neg := false;
+     c_committer := bs "C <c@x>"; c_commit_time := 1234567890; c_commit_tz := 0; c_commit_neg := true;
+     c_encoding := Some (bs "iso-8859-1");
+     c_mergetag := [bs "object x" ++ [10] ++ bs "tag v1" ++ [10; 10] ++ bs "m" ++ [255; 10]];
+     c_extra := [(bs "HG:extra", bs "source:abc"); (bs "HG:rename-source", [255])];
+     c_gpgsig := Some (bs "-----BEGIN PGP SIGNATURE-----" ++ [10; 10] ++ bs "iQ" ++ [10] ++ bs "-----END");
+     c_message := Some ([233] ++ bs "t" ++ [233; 10]) |}.
+
+Example ex_commit_guard : rt_guard ex_env ex_commit = true.
+Proof. vm_compute. reflexivity. Qed.
+
+Example ex_commit_implicit_latin1_guard :
+  rt_guard (fun _ => CUnknown)
+    (wit (bs "A <a>") (bs "C <c>") None [] (Some [233])) = true.
+Proof. vm_compute. reflexivity. Qed.
+
+(* ------------------------------------------------------------------ the limit of the model *)
+Theorem other_codec_unmodelled env (c : commit) (e : bytes) :
+  c_encoding c = Some e -> is_ascii e = true -> bytes_eqb e (bs "false") = false ->
+  lookup env e = COther -> import_commit env c = Unmodelled.
+Proof.
+  intros He Ha Hf Hl. unfold import_commit, import_texts. rewrite He, Ha, Hf, Hl.
+  reflexivity.
+Qed.
+
+(* ------------------------------------------------------------------ roundtrip.py *)
+(* a message without the "\n--BZR--\n" marker passes extract_bzr_metadata unchanged *)
+Theorem no_marker_transparent (m : bytes) :
+  containsb BZR_MARK m = false -> extract_msg m = (m, false).
+Proof.
+  unfold extract_msg. intros H.
+  assert (Hs : bzr_split m = None).
+  { induction m as [|b m IH].
+    - reflexivity.
+    - cbn [containsb] in H. apply orb_false_iff in H. destruct H as [Hp Hc].
+      cbn [bzr_split]. rewrite Hp. rewrite (IH Hc). reflexivity. }
+  rewrite Hs. reflexivity.
 Qed.
